@@ -756,14 +756,20 @@ func inv_MigrateFiles_errors(pkgs []*packages.Package, kvcIdx int) {
 func inv_MigrateFiles_pkgs(m *Migrator, pkgs []*packages.Package, results []MigrationResult, sharedTypeConverter *TypeConverter) {
 	vs.Invariant("no_load_error", vs.SameSlice(gLoaded, pkgs) && !someLoadError())
 	vs.Invariant("nothing_written", gWrites == vs.Old(gWrites) && gWriteFailures == vs.Old(gWriteFailures) && writesOnly(""))
-	vs.Invariant("wf", pkgsWF(pkgs) && migratorWF(m) && resultsWF(results) && (sharedTypeConverter == nil || tcInv(sharedTypeConverter)))
+	vs.Invariant("loaded_wf", pkgsWF(pkgs))
+	vs.Invariant("migrator_wf", migratorWF(m))
+	vs.Invariant("results_wf", resultsWF(results))
+	vs.Invariant("converter_inv", sharedTypeConverter == nil || tcInv(sharedTypeConverter))
 }
 
 //kvc:loop (*Migrator).MigrateFiles "for i, file := range pkg.Syntax"
 func inv_MigrateFiles_files(m *Migrator, pkgs []*packages.Package, pkg *packages.Package, results []MigrationResult, sharedTypeConverter *TypeConverter) {
 	vs.Invariant("no_load_error", vs.SameSlice(gLoaded, pkgs) && !someLoadError())
 	vs.Invariant("nothing_written", gWrites == vs.Old(gWrites) && gWriteFailures == vs.Old(gWriteFailures) && writesOnly(""))
-	vs.Invariant("wf", pkgsWF(pkgs) && pkg != nil && pkg.TypesInfo != nil && vs.Forall(len(pkg.Syntax), func(k int) bool { return importSpecsWF(pkg.Syntax[k]) }) && migratorWF(m) && resultsWF(results) && (sharedTypeConverter == nil || tcInv(sharedTypeConverter)))
+	vs.Invariant("loaded_wf", pkgsWF(pkgs) && pkg != nil && pkg.TypesInfo != nil && vs.Forall(len(pkg.Syntax), func(k int) bool { return importSpecsWF(pkg.Syntax[k]) }))
+	vs.Invariant("migrator_wf", migratorWF(m))
+	vs.Invariant("results_wf", resultsWF(results))
+	vs.Invariant("converter_inv", sharedTypeConverter == nil || tcInv(sharedTypeConverter))
 }
 
 //kvc:loop (*Migrator).MigrateFiles "for _, w := range allWarnings"
